@@ -295,6 +295,12 @@ def linform(repo: Repo, mod, fn_node, expr, depth=0):
             return linform(repo, mod, fn_node, vals[0], depth + 1)
         if len(vals) > 1:
             return None
+    if isinstance(expr, ast.Attribute) and isinstance(expr.value, ast.Name) and fn_node is not None:
+        # `layout = PacketLayout` ... `layout.PHL_NAME`: a local alias of a class / module is looked through
+        al = assigned_value(fn_node, expr.value.id)
+        if len(al) == 1 and isinstance(al[0], (ast.Name, ast.Attribute)) and ap(al[0]):
+            return linform(repo, mod, fn_node, ast.copy_location(ast.Attribute(value=al[0], attr=expr.attr, ctx=ast.Load()), expr),
+                           depth + 1)
     v = ev.ev(expr)
     if isinstance(v, bool):
         return None
@@ -1015,3 +1021,34 @@ def _strip_void_returns(stmts):
             return None
         out.append(st)
     return out
+
+
+
+def dealias_class_locals(repo: Repo, f: FuncInfo):
+    """Clone of f's function node in which a local bound exactly once to a class (`layout = PacketLayout`) is replaced
+    by that class name in attribute reads (`layout.X` -> `PacketLayout.X`), so that constant evaluation / linear forms
+    see through the alias.  Line numbers are kept."""
+    from ..core import clone_ast, set_parents
+    aliases = {}
+    counts = {}
+    for st in stores(f.node, into_defs=True):
+        counts[st.path] = counts.get(st.path, 0) + 1
+    for st in stores(f.node, into_defs=True):
+        if st.kind == "assign" and isinstance(st.target, ast.Name) and isinstance(st.value, (ast.Name, ast.Attribute)) \
+                and counts.get(st.path) == 1 and repo.resolve_class(ap(st.value) or "", f.module) is not None:
+            aliases[st.target.id] = st.value
+    fn2 = clone_ast(f.node)
+    if not aliases:
+        set_parents(fn2)
+        return fn2
+
+    class T(ast.NodeTransformer):
+        def visit_Attribute(self, node):
+            self.generic_visit(node)
+            if isinstance(node.value, ast.Name) and node.value.id in aliases and isinstance(node.ctx, ast.Load):
+                node.value = ast.copy_location(clone_ast(aliases[node.value.id]), node.value)
+            return node
+    T().visit(fn2)
+    ast.fix_missing_locations(fn2)
+    set_parents(fn2)
+    return fn2
